@@ -659,11 +659,72 @@ def check_metis_extras(chk, case, obj, m, hsd):
                      expected=10.0 ** (-want / 10.0))
     else:
         chk.count("excluded_metis_array_walls_not_admissible")
+    check_walls_broadcast(chk, case, obj, m)
     for form, dd in (("scalar", 10.0), ("array", np.array([10.0, 20.0]))):
         r = _call(obj.calc_path_loss_dB, dd, num_walls=-1)
         # a negative wall count is an invalid call: free (tools/INVALID_CALL_POLICY.md), outcome only
         chk.outcome("negative_num_walls", (form,) + r[:1])
         chk.outcome("invalid_call", ("metis_ps7.num_walls=-1 (%s)" % form,
+                                     "accepted" if r[0] != "raise" else "raised:" + r[1], "object_unchanged"))
+
+
+# shape pairs (distances, wall counts).  The docstring of PathLossMetisPS7 admits an array num_walls that
+# "must have the same dimension as d", dimensions of size 1 being broadcast to those of d: pairs in which the
+# wall counts broadcast TO d.shape are valid input, pairs that would need d itself to grow are invalid calls.
+_M, _N, _P = 3, 4, 2
+WALL_SHAPE_PAIRS = [
+    ((_N,), (_N,)), ((_M, _N), (_N,)), ((_M, _N), (_M, 1)), ((_M, _N), (1, _N)), ((_M, _N), (_M, _N)),
+    ((_M, _N), ()), ((_M, _N), (1, 1)), ((_M, 1), (_M, 1)), ((1, _N), (_N,)),
+    ((_P, _M, _N), (_N,)), ((_P, _M, _N), (_M, _N)), ((_P, _M, _N), (_M, 1)), ((_P, _M, _N), (_P, 1, 1)),
+    ((_P, _M, _N), (1, _M, 1)), ((_P, _M, _N), (_P, 1, _N)), ((_P, _M, _N), (_P, _M, 1)),
+]
+WALL_SHAPE_PAIRS_INVALID = [((_M, 1), (1, _N)), ((), (_N,)), ((_N,), (_M, _N)), ((_M, _N), (_M,))]
+
+
+def _grid(shape, start, step):
+    n = int(np.prod(shape, dtype=int))
+    return (start + step * np.arange(n, dtype=float)).reshape(shape)
+
+
+def check_walls_broadcast(chk, case, obj, m):
+    """every element of calc_path_loss_dB(d, num_walls=w) (and of the linear entry point) equals the scalar call
+    with d[i..] and the wall count numpy broadcasting assigns to that element; result shape = d.shape"""
+    for dshape, wshape in WALL_SHAPE_PAIRS:
+        d = _grid(dshape, 2.5, 3.7)                               # all distinct, admissible for every wall count
+        w = _grid(wshape, 0.0, 1.0).astype(int)                   # all distinct, contains 0 (LOS)
+        wb = np.broadcast_to(w, dshape)
+        c2 = dict(case, d_shape=list(dshape), num_walls_shape=list(wshape))
+        keep_d, keep_w = d.tobytes(), w.tobytes()
+        for entry, f in (("calc_path_loss_dB", obj.calc_path_loss_dB), ("calc_path_loss", obj.calc_path_loss)):
+            chk.count("eval_wall_broadcast_pairs")
+            chk.outcome("wall_broadcast", (dshape, wshape, entry))
+            r = _call(f, d, num_walls=w)
+            if d.tobytes() != keep_d or w.tobytes() != keep_w:
+                chk.fail(("metis_ps7", "num_walls_broadcast", "input_modified"), c2, observed=entry)
+            if r[0] != "a":
+                chk.fail(("metis_ps7", "num_walls_broadcast", "fails"), c2, observed="%s: %r" % (entry, _short(r)),
+                         expected="array of shape %r" % (dshape,))
+                continue
+            if r[1].shape != tuple(dshape):
+                chk.fail(("metis_ps7", "num_walls_broadcast", "result_shape"), c2,
+                         observed="%s: %r" % (entry, r[1].shape), expected=tuple(dshape))
+                continue
+            want = np.empty(dshape)
+            for idx in np.ndindex(*dshape):
+                s1 = _call(f, float(d[idx]), num_walls=int(wb[idx]))
+                want[idx] = s1[1] if s1[0] == "v" else np.nan
+            tol = TOL_DB if entry == "calc_path_loss_dB" else TOL_REL * np.abs(want)
+            bad = ~(np.abs(r[1] - want) <= tol)
+            if np.any(bad):
+                idx = tuple(int(x) for x in np.argwhere(bad)[0])
+                chk.fail(("metis_ps7", "num_walls_broadcast", "element_differs_from_scalar_call"), c2,
+                         observed="%s: element %r = %r (d=%r, walls=%d)" % (entry, idx, r[1][idx], d[idx], wb[idx]),
+                         expected=want[idx])
+    for dshape, wshape in WALL_SHAPE_PAIRS_INVALID:
+        # num_walls does not fit the dimensions of d: an invalid call, free (tools/INVALID_CALL_POLICY.md)
+        d = _grid(dshape, 2.5, 3.7) if dshape else 2.5
+        r = _call(obj.calc_path_loss_dB, d, num_walls=_grid(wshape, 0.0, 1.0).astype(int))
+        chk.outcome("invalid_call", ("metis_ps7 d%r num_walls%r" % (dshape, wshape),
                                      "accepted" if r[0] != "raise" else "raised:" + r[1], "object_unchanged"))
 
 
@@ -1422,6 +1483,7 @@ def main(chk: Check):
         chk.require_outcomes("antenna", 8)
         chk.require_outcomes("numeric_form", 100)
         chk.require_outcomes("presentation", 200)
+        chk.require_outcomes("wall_broadcast", 30)
         chk.require_outcomes("query_outcome", 30)
 
 
